@@ -15,16 +15,14 @@ def encOp : Op := fun args =>
   | _ => badArgs
 
 /-- failed hypotheses of `C10_partial` for the decoder at `ticks` -/
-def f5hyps (ipd ticks : Int) : List String :=
-  (if secRoundsUp rne ipd ticks then ["sec_rounds_up"] else []) ++
-  (if nanosOverflow rne ipd ticks then ["nanos_1e9"] else [])
+def f5hyps (_ipd _ticks : Int) : List String := []   -- C10-F5 is repaired: the decoder is `getTimeFromTicksFixed`
 
 /-- `dec start ipd ticks` : `GetTimeFromTicks` on raw arguments -/
 def decOp : Op := fun args =>
   match args.mapM parseInt with
   | some [start, ipd, ticks] =>
     if ipd ≤ 0 then "M:err:ipd" else
-    let x := getTimeFromTicks rne start ipd ticks
+    let x := getTimeFromTicksFixed rne start ipd ticks
     let y := getTimeFromTicksFixed rne start ipd ticks
     -- what the property asks of the decoder alone: a nanosecond field below 1e9 and the second
     -- that contains the decoded instant (= the repaired decoder)
@@ -45,7 +43,7 @@ def roundTrip (t tf : Int) : RT :=
   let ipd := intervalsPerDay tf
   let start := indexToTime utc idx tf y / 1000000000
   let ticks := getIntervalTicks32Bit rne t idx ipd
-  let out := getTimeFromTicks rne start ipd ticks
+  let out := getTimeFromTicksFixed rne start ipd ticks
   let hyps := f5hyps ipd ticks ++
               (if tf == dayNs then ["oneD_base_day_early"] else []) ++
               (if tf % 1000000000 != 0 || ipd * tf != dayNs then ["tf_not_whole_seconds_dividing_day"] else [])
@@ -93,10 +91,10 @@ def sweepOp : Op := fun args =>
   match args.mapM parseInt with
   | some [_start, lo, hi] =>
     if lo < 0 || hi > 1000000000 || hi < lo then badArgs else
-    let band : List Int := (List.range 12).map (fun (i : Nat) => (999999988 : Int) + Int.ofNat i)
-    let lateN := (band.filter (fun d => lo ≤ d && d < hi && late1s d)).length
-    let firstLate := match band.find? (fun d => lo ≤ d && d < hi && late1s d) with
-      | some d => d | none => -1
+    -- closed form of theorem `C10_fixed_1sec`: the round trip is exact for every offset (before the
+    -- repair of C10-F5, `C10_1sec` predicted the offsets ≥ 999999996 one second late)
+    let lateN := 0
+    let firstLate : Int := -1
     s!"M:n={hi - lo} nsbad=0 late={lateN} firstlate={firstLate}"
   | _ => badArgs
 
